@@ -370,7 +370,7 @@ def gen_config(rng, tier):
                  ("shadow_close", 0.4), ("fg_base", 1.0), ("fg_circ", 0.6), ("gate", 0.5)):
         if rng.random() < 0.7:
             ops[k] = w * rng.choice([0.5, 1.0, 2.0])
-    return {"n": n, "steps": rng.randrange(5, 40), "ops": ops, "faults": ["coin_force"] if rng.random() < 0.3 else [],
+    return {"n": n, "steps": rng.randrange(5, 40) if tier != "thorough" else rng.randrange(5, 90), "ops": ops, "faults": ["coin_force"] if rng.random() < 0.3 else [],
             "flags": ["c19"], "max_slots": rng.choice([1, 2, 3])}
 
 
